@@ -347,8 +347,30 @@ def check_turn_case(case, sess: Session):
                 plans.append((p, _spec is None, copy.deepcopy(bundle.get("slice_caps")), bundle.get("agent", {}).get("caps", {}).get("ops") if isinstance(bundle.get("agent"), dict) else None))
                 return p
 
+            # metamorphic twin: a slice cap must act exactly like the same cap written in the stage's own config
+            t1twin = {}
+            real_t1 = orch.t1_propagate
+
+            def t1w(ctx, state, text, _tw=t1twin):
+                caps = dict(getattr(ctx, "slice_budgets", None) or {})
+                try:
+                    ref_cfg = copy.deepcopy(ctx.cfg)
+                    ref_cfg["t1"]["cache"] = {"enabled": False}
+                    if caps.get("t1_pops") is not None:
+                        ref_cfg["t1"]["queue_budget"] = min(int(ref_cfg["t1"].get("queue_budget", 10_000)), int(caps["t1_pops"]))
+                    if caps.get("t1_iters") is not None:
+                        ref_cfg["t1"]["iter_cap"] = min(int(ref_cfg["t1"].get("iter_cap", 50)), int(caps["t1_iters"]))
+                    ref = real_t1(NS(cfg=ref_cfg, config=ref_cfg), state, text)
+                    _tw["ref"] = (ref.graph_deltas, {k: ref.metrics.get(k) for k in ("pops", "iters", "propagations", "radius_cap_hits", "layer_cap_hits", "node_budget_hits")})
+                except Exception as ex:  # the reference could not be computed: nothing to compare
+                    _tw["err"] = repr(ex)[:100]
+                r_ = real_t1(ctx, state, text)
+                _tw["got"] = (r_.graph_deltas, {k: r_.metrics.get(k) for k in ("pops", "iters", "propagations", "radius_cap_hits", "layer_cap_hits", "node_budget_hits")})
+                _tw["caps"] = caps
+                return r_
+
             before = {s: len(env.records(s)) for s in ("t1.jsonl", "t2.jsonl", "t3.jsonl", "t3_plan.jsonl", "t4.jsonl", "apply.jsonl", "turn.jsonl", "scheduler.jsonl", "health.jsonl")}
-            with patched(core, "_should_yield", sy):
+            with patched(core, "_should_yield", sy), patched(orch, "t1_propagate", t1w):
                 r = env.run(t["agent"], t["text"], ti + 1, plan=planner, vclock=VClock(pc_step=t["pc_step"], pc_script=([0.0] * t["pc_jump"] + [10.0]) if t.get("pc_jump") else None))
             tcase = {"cfg": case["cfg"], "turn": ti, "turns": case["turns"][:ti + 1], "world": case["world"]}
             sess.evaluations += 1
@@ -367,6 +389,14 @@ def check_turn_case(case, sess: Session):
                 sess.violation("budget:t1-pops-exceeded", tcase, {"pops": t1r["pops"], "budget": b["t1_pops"], "graphs": ngraphs})
             if b.get("t1_iters") is not None and t1r["iters"] > b["t1_iters"] * ngraphs:
                 sess.violation("budget:t1-iters-exceeded", tcase, {"iters": t1r["iters"], "budget": b["t1_iters"], "graphs": ngraphs})
+            if "ref" in t1twin and "got" in t1twin:
+                sess.count("t1_slice_vs_config_cap_twins")
+                if t1twin["caps"].get("t1_pops") is not None or t1twin["caps"].get("t1_iters") is not None:
+                    sess.count("t1_slice_vs_config_cap_twins_with_caps")
+                if t1twin["ref"][0] != t1twin["got"][0]:
+                    sess.violation("budget:t1-slice-cap-differs-from-config-cap(deltas)", tcase, {"caps": t1twin["caps"], "slice": t1twin["got"][0][:8], "config": t1twin["ref"][0][:8]})
+                elif t1twin["ref"][1] != t1twin["got"][1]:
+                    sess.violation("budget:t1-slice-cap-differs-from-config-cap(counters)", tcase, {"caps": t1twin["caps"], "slice": t1twin["got"][1], "config": t1twin["ref"][1]})
             if ngraphs == 1:
                 sess.count("single_graph_turns(strict t1 budget)")
             bound_hit = False
